@@ -81,6 +81,14 @@ func Gen(t *rapid.T, rtl bool) Case {
 		}
 	}
 	gen.Resolve(t, root, c.Base, false, cfg)
+	// ExplicitCapture (option or inline) turns plain groups into non-capturing ones, which is only known now:
+	// a quantifier whose body thereby became nullable-free but reducible to a bare repeater is outside the
+	// fragment (the engine multiplies nested repeaters); it is neutralised to {1}
+	root.Walk(func(x *ast.Node) {
+		if x.K == ast.KQuant && ast.BareRepeater(x.Kids[0]) {
+			x.Min, x.Max, x.Lazy = 1, 1, false
+		}
+	})
 	c.AST = root
 	po := ast.PrintOpts{}
 	if c.Base.X || root.Has(func(x *ast.Node) bool { return x.K == ast.KOpt && strings.Contains(x.S, "x") }) {
